@@ -12,7 +12,7 @@ from mc.core.util import call
 
 ID = "C11"
 LEVEL = "model_checking"
-REQUIRED_OUTCOMES = ["add:accepted", "add:same-object-again", "refused:duplicate-id", "refused:foreign-arch",
+REQUIRED_OUTCOMES = ["dump:refused-duplicate-uid", "add:accepted", "add:same-object-again", "refused:duplicate-id", "refused:foreign-arch",
                      "refused:foreign-arch-first-child", "refused:misaligned-uid", "refused:ancestor",
                      "refused:top-level-under-other", "reload:ok", "state:depth3", "state:dashed-top", "query:filtered"]
 
@@ -30,6 +30,7 @@ CANDS = {
     "Aoz":  ("z", "A-o-z", "addon", ("i386",)),                    # arch the parent A-o lacks (grandparent has it)
     "Xm":   ("m", "X-m", "addon", ("x86_64",)),                    # misaligned UID wherever it is added
     "Aq":   ("q", "Aq", "addon", ("x86_64",)),                     # UID that is right except for the missing dash (under A)
+    "Ao3":  ("Ao", "A-o", "variant", ("x86_64",)),                 # dashed TOP-LEVEL UID equal to the UID of the child A-o
 }
 ORDER = list(CANDS)
 ARCH_FILTERS = [None, "x86_64", "i386", "ppc64", "src"]
@@ -48,15 +49,24 @@ def m_uid(nodes, pos):
     return CANDS[nodes[pos][0]][1]
 
 
+def m_dup_uids(state):
+    uids = [CANDS[name][1] for _, name, _ in state]
+    return {u for u in uids if uids.count(u) > 1}
+
+
 def m_step(state, op):
     """-> (state', expected, reason).  expected: 'ok' | 'ValueError' | None (operation outside the explored domain)."""
     if op[0] == "reload":
+        if m_dup_uids(state):
+            return state, "ValueError", "dump-refuses-duplicate-uid"      # two variants with one UID cannot be written
         return frozenset((pos, name, False) for pos, name, _ in state), "ok", "reload"
     _, tpos, cname = op
     tpos = tuple(tpos)
     nodes = m_nodes(state)
     if tpos and tpos not in nodes:
         return state, None, "no such target"
+    if len(tpos) == 1 and "-" in m_uid(nodes, tpos):
+        return state, None, "dashed top-level UIDs occur only on childless variants (domain of the property)"
     cid, cuid, ctype, carches = CANDS[cname]
     where = [pos for pos, (name, orig) in nodes.items() if name == cname and orig]
     slot = tpos + (cid,)
@@ -130,7 +140,9 @@ def observe(ci):
     return out
 
 
-def invariants(ci):
+def invariants(ci, dups=()):
+    """dups: UIDs the model knows to occur twice (a dashed top-level UID next to an equal child UID): the adds are not refused,
+    only the dump is - uniqueness and lookup by UID are not judged for them."""
     problems = []
     seen_uids = {}
 
@@ -149,11 +161,11 @@ def invariants(ci):
                 r = call(lambda: parent[v.id])
                 if r[0] != "ok" or r[1] is not v:
                     problems.append("parent[%r] does not return the variant %s" % (v.id, v.uid))
-            if v.uid in seen_uids:
+            if v.uid in seen_uids and v.uid not in dups:
                 problems.append("UID %s occurs twice" % v.uid)
             seen_uids[v.uid] = v
             r = call(lambda: ci[v.uid])
-            if r[0] != "ok" or r[1] is not v:
+            if v.uid not in dups and (r[0] != "ok" or r[1] is not v):
                 problems.append("ComposeInfo[%r] does not return the variant (got %s)" % (v.uid, r[1] if r[0] == "exc" else getattr(r[1], "uid", r[1])))
             rec(v, v)
     rec(ci.variants, None)
@@ -174,15 +186,15 @@ SELF_FILTERS = [["self"], ["self", "addon"], ["self", "optional", "variant"]]
 
 def check_queries(ci, acc=None):
     problems = []
-    levels = [ci.variants] + [v for v in subtree(ci.variants, True) if v.variants]
+    levels = [ci, ci.variants] + [v for v in subtree(ci.variants, True) if v.variants]
     n = 0
     before = observe(ci)
     for level in levels:
-        nested = level is not ci.variants
+        nested = level is not ci.variants and level is not ci
         for arch, types, recursive in itertools.product(ARCH_FILTERS, TYPE_FILTERS + (SELF_FILTERS if nested else []), (False, True)):
             r = call(level.get_variants, arch=arch, types=types, recursive=recursive)
             n += 1
-            q = "%s.get_variants(arch=%r, types=%r, recursive=%r)" % (getattr(level, "uid", "<top>"), arch, types, recursive)
+            q = "%s.get_variants(arch=%r, types=%r, recursive=%r)" % ("ComposeInfo" if level is ci else getattr(level, "uid", "<top>"), arch, types, recursive)
             if r[0] != "ok":
                 problems.append("%s raised %s" % (q, r[1]))
                 continue
@@ -192,7 +204,7 @@ def check_queries(ci, acc=None):
                 problems.append("%s returns a variant twice: %s" % (q, uids))
             if uids != sorted(uids):
                 problems.append("%s is not ordered by UID: %s" % (q, uids))
-            universe = subtree(level, recursive)
+            universe = subtree(ci.variants if level is ci else level, recursive)
             if types and "self" in types:
                 if sum(1 for v in res if v is level) != 1:
                     problems.append("%s does not contain the variant itself exactly once: %s" % (q, uids))
@@ -227,7 +239,10 @@ def run_history(hist, queries=False):
         if want is None:
             return state, ["harness: operation outside the domain in history: %s" % (op,)], labels, nq
         before = observe(ci)
-        if op[0] == "reload":
+        if op[0] == "reload" and want == "ValueError":
+            w = call(ci.dumps)
+            got = "ok" if w[0] == "ok" else w[1]
+        elif op[0] == "reload":
             w = call(ci.dumps)
             if w[0] != "ok":
                 return state2, ["step %d reload: a forest built by valid adds cannot be written: %s" % (n, w[1])], labels, nq
@@ -256,12 +271,12 @@ def run_history(hist, queries=False):
         for pos, (name, orig) in nodes.items():
             if orig and after[pos][4] != id(objs[name]):
                 return state2, ["step %d %s: position %s does not hold the object that was added" % (n, op, pos)], labels, nq
-        inv = invariants(ci)
+        inv = invariants(ci, m_dup_uids(state2))
         if inv:
             return state2, ["step %d %s (%s): %s" % (n, op, reason, "; ".join(inv[:3]))], labels, nq
         state = state2
         labels.append(reason)
-    if queries:
+    if queries and not m_dup_uids(state):
         qp, nq = check_queries(ci)
         if qp:
             return state, ["after %s: %s" % (hist, "; ".join(qp[:3]))], labels, nq
@@ -343,6 +358,8 @@ def run_unit(unit, acc):
                 acc.outcome("add:same-object-again")
             elif reason == "reload":
                 acc.outcome("reload:ok")
+            elif reason == "dump-refuses-duplicate-uid":
+                acc.outcome("dump:refused-duplicate-uid")
             else:
                 acc.outcome("refused:" + reason)
             if len(full) >= 2:
@@ -360,9 +377,9 @@ KNOWN = {}
 
 def describe(tier):
     return {
-        "rule": "candidate pool of 12 variants (top-level A{i386,x86_64}, B{x86_64}, dashed childless top-level A-X (sorting between A and its children); children A-o "
+        "rule": "candidate pool of 13 variants (top-level A{i386,x86_64}, B{x86_64}, dashed childless top-level A-X (sorting between A and its children); children A-o "
                 "(optional), A-a (addon), grandchild A-o-g (layered-product), B-o; invalid siblings: a second object with id o, "
-                "children with an arch outside the parent's (under B and under A-o), a misaligned UID X-m, a UID that lacks only the dash); operations target.add("
+                "children with an arch outside the parent's (under B and under A-o), a misaligned UID X-m, a UID that lacks only the dash, a dashed top-level UID equal to the child UID A-o - accepted by add, but then the dump must refuse); operations target.add("
                 "cand) for every target in the forest or the top container x every candidate (incl. the same object again, an "
                 "ancestor under its descendant, a top-level variant under another) and reload (write + read into a fresh object). "
                 "Every history up to the depth, deduplicated on the model state; after every step: accepted/refused as the model "
